@@ -1124,6 +1124,15 @@ def predict_relations(sess, rng, count, kinds=KINDS):
         shape = pick_shape(rng, 8, 4)
         n = len(shape)
         vals = random_vals(rng, shape, beta)
+        if rng.random() < 0.3:
+            # the ladders start from an exact coincidence (ordinal ties between single players above all: there a decision
+            # taken by comparing rating objects flips with the first step)
+            if rng.random() < 0.5:
+                vals = [[v] for v in rng.sample([(30.0, 10.0), (15.0, 5.0), (24.0, 8.0), (7.5, 2.5)], rng.choice([2, 2, 3]))]
+            else:
+                coincide(rng, vals, 0.0)
+            shape = [len(t) for t in vals]
+            n = len(shape)
         DUP_IDS[0] = rng.random() < 0.2
         if rng.random() < 0.5:
             pollute(sess, rng, kind, params, g, vals, ("win", "draw", "rank"))
